@@ -39,7 +39,8 @@ type nodeStats struct {
 	Samples                                                []string
 	Notes                                                  []string
 	Scenarios                                              int
-	C08Compared, C08Resets, TwoRoundScenarios              int
+	C08Compared, C08Resets, TwoRoundScenarios, C08InDealsWindow int
+	CancelledRounds                                        int
 }
 
 func tsTok(t time.Time) string {
@@ -362,6 +363,9 @@ func (r *nodeRun) feedOp(c *cluster, n *vnode, m storage.Message, kind, opName s
 				panicked = true
 			}
 		}()
+		if bz, err := json.Marshal(m); err == nil {
+			probe("node ProcessMessage(" + string(bz) + ")")
+		}
 		perr = n.svc.ProcessMessage(m)
 	}()
 	outcome := "ok"
@@ -409,6 +413,12 @@ func (r *nodeRun) feedOp(c *cluster, n *vnode, m storage.Message, kind, opName s
 	after := nodeRender(n)
 	r.emit(strings.Join(toks, " "), outcome+" sent=("+strings.Join(sent, ";")+") "+after)
 	r.st.OutcomeHist[kind+"/"+outcome]++
+	if outcome == "panic" {
+		r.mon(fmt.Sprintf("C18 never_panics: ProcessMessage panicked on a %s message (%s from %s)", kind, m.Event, m.SenderAddr))
+	}
+	if outcome == "reject" && before != after {
+		r.mon(fmt.Sprintf("C18 reject_is_noop: a rejected %s message (%s from %s) changed durable state", kind, m.Event, m.SenderAddr))
+	}
 	if snap != nil {
 		rawRestore(n, snap)
 		if back := nodeRender(n); back != before {
@@ -526,22 +536,9 @@ func (r *nodeRun) mutate(c *cluster, obs *vnode, m storage.Message, otherRound s
 }
 
 func stripFreshRounds(s string) string {
-	// a rejected message may leave a freshly created __idle round behind (accounted under C18);
-	// C09 speaks about EXISTING rounds, the pool and the signature store
-	i := strings.Index(s, "rounds=(")
-	j := strings.Index(s, ") ops=(")
-	if i < 0 || j < 0 {
-		return s
-	}
-	rs := strings.Split(s[i+8:j], " ; ")
-	var kept []string
-	for _, x := range rs {
-		if strings.Contains(x, "=D{st=__idle ") && strings.Contains(x, " sig=nil ") {
-			continue
-		}
-		kept = append(kept, x)
-	}
-	return s[:i+8] + strings.Join(kept, " ; ") + s[j:]
+	// before fix 463256a a rejected message left an empty round behind for an unknown round id and this
+	// function removed such rounds before comparing; now the whole state is compared
+	return s
 }
 
 // scenario: a ceremony with n nodes; the observer's polling is replaced by feed().
@@ -611,12 +608,6 @@ func (r *nodeRun) scenario(outDir string, n, t int, twoRounds bool) {
 						} else if res.outcome != "ok" && stripFreshRounds(res.before) != stripFreshRounds(res.after) {
 							r.mon(fmt.Sprintf("%s reject_noop: rejected message (%s of %s) changed the node state", mu.prop, mu.name, m.Event))
 						}
-					}
-					if res.outcome == "panic" {
-						r.mon(fmt.Sprintf("C18 never_panics: ProcessMessage panicked on %s of a genuine %s", mu.name, m.Event))
-					}
-					if res.outcome == "reject" && res.before != res.after && stripFreshRounds(res.before) != stripFreshRounds(res.after) {
-						r.mon(fmt.Sprintf("C18 reject_is_noop: rejected %s of %s changed durable state", mu.name, m.Event))
 					}
 				}
 				half := perMsg / 2
@@ -703,6 +694,38 @@ func (r *nodeRun) scenario(outDir string, n, t int, twoRounds bool) {
 		if st := c.roundState(nd, round); st != "stage_signing_idle" && len(r.st.Notes) < 30 {
 			r.st.Notes = append(r.st.Notes, fmt.Sprintf("after signing %s is in %s", nd.name, st))
 		}
+	}
+	// a batch that fails: more than n-t participants report an error instead of a partial signature; the round
+	// is cancelled and lazily restarted by the next message; then one more batch that succeeds
+	{
+		prop := c.nodes[r.rng.Intn(n)]
+		c.proposeData(prop, round, map[string][]byte{"doomed": []byte("never signed")})
+		for _, nd := range c.nodes {
+			nd.silent = true
+		}
+		pumpAll(6) // everybody sees the proposal, nobody answers
+		for i := 0; i < n-t+1; i++ {
+			nd := c.nodes[(obsIdx+1+i)%n]
+			req := requests.SignatureProposalConfirmationErrorRequest{ParticipantId: nd.idx, Error: requests.NewFSMError(fmt.Errorf("airgapped machine failed")), CreatedAt: time.Now()}
+			bz, _ := json.Marshal(req)
+			nd.stg.Send(storage.Message{ID: fmt.Sprintf("err-%d-%d", r.st.Scenarios, i), DkgRoundID: round, Event: "event_signing_partial_sign_error_received",
+				Data: bz, Signature: ed25519.Sign(nd.kp.Priv, bz), SenderAddr: nd.name})
+		}
+		pumpAll(6)
+		cancelled := 0
+		for _, nd := range c.nodes {
+			if strings.Contains(c.roundState(nd, round), "cancelled_by_error") {
+				cancelled++
+			}
+		}
+		r.st.CancelledRounds += cancelled
+		for _, nd := range c.nodes {
+			nd.silent = false
+			// the doomed batch's requests are dropped by everybody but the observer (whose pool the model mirrors)
+		}
+		c.proposeData(c.nodes[r.rng.Intn(n)], round, map[string][]byte{"after": []byte("signed after the failure")})
+		pumpAll(20)
+		pumpAll(20)
 	}
 	r.c08Checks(c, obs, rounds)
 	r.resetObserved(c, obs)
